@@ -7,3 +7,7 @@ pub mod sched;
 pub mod crash;
 pub mod contra;
 pub mod pair;
+pub mod parse;
+pub mod ident;
+pub mod hashd;
+pub mod codec;
